@@ -175,10 +175,13 @@ def main_c01():
     if quick:
         # quick: every second configuration (the other half with the next seed), one dt per scheme,
         # rotating through the dt regimes; thorough replays everything with every dt
-        cfgs = [c for c in cfgs if c["id"] % 2 == sd % 2]
-        for c in cfgs:
-            c["bwd_dts"] = [[0.025, 1.0, 1000.0][(c["id"] // 2) % 3]]
-            c["cn_dts"] = [[1.0, 1000.0, 0.025][(c["id"] // 2) % 3]]
+        import random
+        ones = [c for c in cfgs if max(c["ncomp"]) == 1]
+        rest = [c for c in cfgs if max(c["ncomp"]) > 1]
+        cfgs = sorted(ones + random.Random(sd).sample(rest, len(rest) // 2), key=lambda c: c["id"])
+        for j, c in enumerate(cfgs):           # rotate by position in the selection (ids are aligned with the 3^k blocks)
+            c["bwd_dts"] = [[0.025, 1.0, 1000.0][(j + sd) % 3]]
+            c["cn_dts"] = [[1.0, 1000.0, 0.025][(j + sd) % 3]]
     jobs = [{"opts": opts, "configs": ch} for ch in C.chunks(cfgs, C.NCPU * 4)]
     outs = C.run_workers("replay_cable", jobs)
     n_steps = n_ref = n_int = 0
@@ -262,7 +265,12 @@ def main_c02():
             "recip_backends": ["jaxley.thomas", "jax.sparse"] if quick else ["jaxley.stone", "jaxley.thomas", "jax.sparse"],
             "backends": ["jaxley.stone", "jaxley.thomas", "jax.sparse"], "clear_every": 5}
     if quick:
-        cfgs = cfgs[sd % 3::3]          # a third of the space per seed; thorough replays everything
+        # a seeded random third of the space (a stride would alias with the 3^k blocks of compartment counts per tree), plus
+        # every configuration whose branches all have one compartment (no within-branch edge at all); thorough replays everything
+        import random
+        ones = [c for c in cfgs if max(c["ncomp"]) == 1]
+        rest = [c for c in cfgs if max(c["ncomp"]) > 1]
+        cfgs = sorted(ones + random.Random(sd).sample(rest, len(rest) // 3), key=lambda c: c["id"])
     jobs = [{"opts": opts, "configs": ch} for ch in C.chunks(cfgs, C.NCPU * 4)]
     outs = C.run_workers("replay_cable", jobs)
     n_eval = n_ref = pairs = 0
